@@ -510,9 +510,15 @@ size_t varintAdaptiveDecode(const uint8_t *src, uint64_t *values,
         varintBitmap *vb = varintBitmapDecode(data, 1024 * 1024);
         if (vb) {
             /* Extract values from bitmap */
+            /* varintBitmapToArray() writes every member, so size the
+             * temporary by the set's cardinality, not by maxCount */
             size_t allocSize;
             uint16_t *shortValues = NULL;
-            if (!size_mul_overflow(maxCount, sizeof(uint16_t), &allocSize)) {
+            size_t members = varintBitmapCardinality(vb);
+            if (members == 0) {
+                members = 1;
+            }
+            if (!size_mul_overflow(members, sizeof(uint16_t), &allocSize)) {
                 shortValues = malloc(allocSize);
             }
 
